@@ -34,7 +34,7 @@
 (* order.  It determines the whole state, so distinct states = distinct    *)
 (* histories; Emit prints every reachable state once.                      *)
 (***************************************************************************)
-EXTENDS HGBase, SequencesExt, TLC, Json, IOUtils
+EXTENDS HGBase, RenameRules, SequencesExt, TLC, Json, IOUtils
 
 CONSTANTS P,        \* number of positions
           U,        \* universe of names (contains the original names)
@@ -76,7 +76,8 @@ RenameBatch(S, m) ==
       batch == [k \in 1..Len(ps) |-> <<cur[ps[k]], m[cur[ps[k]]]>>]
   IN /\ depth < D
      /\ AllowId \/ \A x \in S : m[x] # x
-     /\ Cardinality(Names(new)) = P               \* _check_rename_duplicates
+     /\ RenameOK(cur, batch)                      \* known names, no duplicates afterwards (RenameRules)
+     /\ new = Renamed(cur, batch)                 \* ... and the two descriptions of the effect agree
      /\ cur' = new
      /\ hist' = hist \o [k \in 1..Len(ps) |-> [old |-> batch[k][1], new |-> batch[k][2], batch |-> depth + 1]]
      /\ depth' = depth + 1
